@@ -35,17 +35,19 @@ STRENGTHENED = {
     "C15-4": "missed at first: unknown include types were only tried on a non-empty file; empty and blank files added",
     "C16-3": "missed at first: no lazily linked broken import, and artifacts of files that fail alone were not compared; both added",
     "C16-4": "missed at first: batches were only run from the project root; the same batch from a directory below with every argument spelled ../ added",
-    "C17-3": "missed at first: no fault was a call argument of the wrong type; added (judged on the checker's diagnostic)",
     "C17-4": "missed at first: calls were never arguments of other calls; a statement shape with a nested call added",
+    "C07-3": "missed at first (an apparent catch was a defect of the unchanged tree, repaired as e3ec5f2): lists were homogeneous; joins of lists of different lengths and element types added to proggen",
+    "C10-4": "missed at first: shows only in `ucg repl`, which no check drove; 1 in 40 C10 cases is now a repl session of refused rebindings with the name read back in between",
+    "C11-4": "missed at first: shows only in `ucg repl`; 1 in 400 C11 cases now types a multi-line string literal into the repl and compares it with the one-line literal",
+    "C18-4": "missed at first: shows only in `ucg repl`; 1 in 3 strict reads of an unset variable is now also typed into the repl with the planted secret in the environment",
+    "C17-3": "missed at first: no fault was a call argument of the wrong type; added (judged on the checker's diagnostic) and the change was then caught",
     "C20-3": "missed at first: every edit replaced the text by an unrelated one; edits that move the same text (blank lines, comments, indentation) added",
 }
 
 # second-round changes that are not caught by the check of their property, and why
 NOT_CAUGHT = {
     "C02-4": "changes evaluation, not the parse tree C02 observes (`ucglib::parse::parse`); caught by C01 (compiled evaluation vs reference semantics)",
-    "C10-4": "shows only in `ucg repl`; C10 observes FileBuilder::eval_string (the property's observe_at), no check drives the repl",
-    "C11-4": "shows only in `ucg repl`; C11 observes the tokenizer and build output, no check drives the repl",
-    "C18-4": "shows only in `ucg repl`; C18 observes `ucg build`, no check drives the repl",
+    "C17-3": "no longer manifests on the current tree: repair d250689 re-anchors the diagnostic for a call argument at the argument, which neutralises this change for its trigger (its demonstration passes on HEAD + patch); it was caught by C17 (`wrong-argument-type`) before that repair",
     "C18-3": "no longer manifests on the current tree: repair f3aa3d3 removed the checker defect (env inferred as a one-field tuple) that this change exposed; its demonstration passes on HEAD + patch. C18 now reads several variables per program and fails on the tree without f3aa3d3",
 }
 
